@@ -295,4 +295,28 @@ def run_case(rng, tier, idx):
     ref = judge(c, K, M, ev, vecs, mode, sort, k, sparse)
     if ref is not None:
         c.nontrivial = min(len(ev), vecs.shape[1]) >= 2
+    # the same Panel object after a redefinition (density, a dimension, an edge flag), analysed again: the pairs returned now are
+    # eigenpairs of the stiffness and mass matrices of the panel as defined now (built here on a fresh object)
+    if ref is not None and mode == 'panel_method' and c.desc.get('preload') is None and rng.random() < 0.5:
+        c.tag('clause:redefined')
+        d2 = dict(d); d2['flags'] = dict(d['flags'])
+        what = str(rng.choice(['mu', 'mu', 'a', 'flag']))
+        if what == 'mu':
+            d2['mu'] = d['mu'] * float(10 ** rng.uniform(-1, 1))
+            p.mu = d2['mu']
+        elif what == 'a':
+            d2['a'] = d['a'] * float(rng.uniform(0.5, 2))
+            p.a = d2['a']
+        else:
+            k_ = 'w%s%sx' % (str(rng.choice(['1', '2'])), str(rng.choice(['t', 'r'])))
+            d2['flags'][k_] = 0.0 if d['flags'].get(k_, 1.0) else 1.0
+            setattr(p, k_, d2['flags'][k_])
+        c.desc['redefinition'] = what
+        try:
+            q = gen.build_panel(d2)
+            K2 = q.calc_k0(silent=True); M2 = q.calc_kM(silent=True)
+            p.freq(atype=4, silent=True, sparse_solver=sparse, sort=sort)
+            judge(c, K2, M2, p.eigvals, p.eigvecs, 'panel_method after redefinition (%s):' % what, sort, k, sparse)
+        except Exception as e:
+            c.info['redefinition_rejected'] = '%s: %s' % (type(e).__name__, str(e)[:100])
     return c
